@@ -87,6 +87,12 @@ def run(ctx):
     from . import c04
 
     c04.inverse_rule(ctx, "R20.9")
+    # a constructor-built tree is written with its transforms on the shapes; the reader (reify=True) folds them into the
+    # attributes: the reify algebra of C02 decides that the shape read back is the shape written
+    ctx.rule("R20.10", "reading back with reify=True folds the written matrix into rect / round-shape attributes exactly (obligations shared with C02 R02.4)")
+    from . import c02
+
+    c02.reify_algebra(ctx.renamed("R20.10"))
 
 
 def emitted(ctx, body):
